@@ -1,6 +1,10 @@
 package syncx
 
-import "sync"
+import (
+	"sync"
+
+	"github.com/zeromicro/go-zero/internal/verifhook"
+)
 
 type (
 	// SingleFlight lets the concurrent calls with the same key to share the call result.
@@ -71,9 +75,11 @@ func (g *flightGroup) createCall(key string) (c *call, done bool) {
 
 func (g *flightGroup) makeCall(c *call, key string, fn func() (any, error)) {
 	defer func() {
+		verifhook.At("flight.beforeDelete", key)
 		g.lock.Lock()
 		delete(g.calls, key)
 		g.lock.Unlock()
+		verifhook.At("flight.beforeDone", key)
 		c.wg.Done()
 	}()
 
